@@ -161,13 +161,13 @@ def run(chk):
     cfg = tlc.cfg(spec="Spec", constants={"MaxOps": 2}, invariants=["Emit", "AllClosed"])
     r = chk.tlc("GqlSchemaOps", cfg, tags=["SEQ"], label="GqlSchemaOps ops<=2 (schemas for the round trip)", heap="8g")
     seen = set()
-    for b in r.tagged("SEQ"):
+    for b in opsreplay.expand(r.tagged("SEQ")):
         for s, h in zip(b["schemas"][1:], b["hist"]):
             k = json.dumps(s, sort_keys=True)
             if k not in seen:
                 seen.add(k)
                 cases.append(("ops", s, "%s:%s" % (h["op"], h["arg"]["p"])))
-    cases.append(("ops", r.tagged("SEQ")[0]["schemas"][0], "base"))
+    cases.append(("ops", opsreplay.expand(r.tagged("SEQ")[0]["schemas"][0]), "base"))
     chk.count("schemas round-tripped", len(cases))
     for out, n in par.pmap(_rt_worker, cases):
         chk.traces += n
